@@ -473,8 +473,13 @@ static int retrieve_addr(int fd, int (*socknamefn)(int, struct sockaddr *,
     if (rc < 0)
 	return -1;
 
-    /* the buffer should be configured to allow max-sized names */
-    ut_assert(addr_len <= sizeof(struct sockaddr_un));
+    /* For a name filling all of sun_path, the kernel reports a length
+       one beyond the struct (the name plus a terminator that did not
+       fit). Such a name cannot be an XCM address. */
+    if (addr_len > sizeof(struct sockaddr_un)) {
+	errno = ENAMETOOLONG;
+	return -1;
+    }
 
     size_t name_offset = offsetof(struct sockaddr_un, sun_path);
 
@@ -483,7 +488,7 @@ static int retrieve_addr(int fd, int (*socknamefn)(int, struct sockaddr *,
 
     size_t name_len = addr_len - name_offset;
 
-    char name[UX_NAME_MAX + 1];
+    char name[sizeof(addr.sun_path) + 1];
 
     if (name_len == 0)
         name[name_len] = '\0';
@@ -497,10 +502,8 @@ static int retrieve_addr(int fd, int (*socknamefn)(int, struct sockaddr *,
         name[name_len] = '\0';
     }
 
-    rc = makefn(name, buf, buf_len);
-    ut_assert(rc == 0);
-
-    return 0;
+    /* fails for a name beyond what an XCM address may hold */
+    return makefn(name, buf, buf_len);
 }
 
 static const char *get_remote_addr(struct xcm_socket *conn_s,
